@@ -246,135 +246,41 @@ theorem group_state_is_or (l : List Nat) (h : ∀ s ∈ l, s < 16) (i : Nat) :
     rw [orAll_cons, Nat.testBit_or, ih (fun s hs => h s (by simp [hs]))]
     simp
 
-/-- `all_op` AS CODED: true iff some SubDevice reported OP and every other one reported OP *or
-    nothing at all* (`None` = 0 vanishes in the OR). -/
-theorem all_op_as_coded (l : List Nat) (h : ∀ s ∈ l, s < 16) :
-    allOp l = true ↔ (∃ s ∈ l, s = 8) ∧ ∀ s ∈ l, s = 8 ∨ s = 0 := by
-  have hs := singleOf_some (groupState l) (by rw [groupState_eq_orAll l h]; exact orAll_lt l h) .op
-  rw [← orAll_eq_bit 8 (by omega) l h, ← groupState_eq_orAll l h]
-  unfold allOp groupInSingleState
-  cases hso : singleOf (groupState l) with
-  | none =>
-    simp only [Bool.false_eq_true, false_iff]
-    intro h8
-    have := hs.2 ⟨by simp, by simpa [SdState.toNat] using h8⟩
-    rw [hso] at this; cases this
-  | some d =>
-    simp only [beq_iff_eq]
+/-- `group_in_single_state` returns `Some(d)` iff the group is non-empty and EVERY SubDevice
+    reported `d` (as decoded from its 4-bit status field). -/
+theorem single_state_iff (l : List Nat) (d : SdState) :
+    groupInSingleState l = some d ↔ l ≠ [] ∧ ∀ s ∈ l, SdState.ofNat s = d := by
+  unfold groupInSingleState
+  rw [singleState_some]
+  simp
+
+/-- `is_in_state(d)` iff the group is non-empty and every SubDevice reported `d`. -/
+theorem is_in_state_iff (l : List Nat) (d : SdState) :
+    isInState l d = true ↔ l ≠ [] ∧ ∀ s ∈ l, SdState.ofNat s = d := by
+  unfold isInState
+  rw [beq_iff_eq, single_state_iff]
+
+/-- `all_op r ↔ r.states ≠ [] ∧ ∀ s ∈ r.states, s = Op`. -/
+theorem all_op_iff (l : List Nat) : allOp l = true ↔ l ≠ [] ∧ ∀ s ∈ l, s = 8 := by
+  have key : (∀ s ∈ l, SdState.ofNat s = .op) ↔ ∀ s ∈ l, s = 8 := by
     constructor
-    · rintro rfl
-      have := (hs.1 hso).2
-      simpa [SdState.toNat] using this
-    · intro h8
-      have := hs.2 ⟨by simp, by simpa [SdState.toNat] using h8⟩
-      rw [hso] at this
-      exact Option.some.inj this
+    · intro h s hs
+      exact ofNat_inj s 8 (by rw [h s hs]; rfl)
+    · intro h s hs
+      rw [h s hs]; rfl
+  rw [← key, ← single_state_iff]
+  unfold allOp
+  cases groupInSingleState l with
+  | none => simp
+  | some d => simp
 
-/-- `all_op` says what it should as long as no SubDevice reports `None`. -/
-theorem all_op_iff_partial (l : List Nat) (h : ∀ s ∈ l, s < 16) (hn : ∀ s ∈ l, s ≠ 0) :
-    allOp l = true ↔ l ≠ [] ∧ ∀ s ∈ l, s = 8 := by
-  rw [all_op_as_coded l h]
-  constructor
-  · rintro ⟨⟨s, hs, _⟩, hall⟩
-    exact ⟨by intro e; simp [e] at hs, fun t ht => (hall t ht).resolve_right (hn t ht)⟩
-  · rintro ⟨hne, hall⟩
-    cases l with
-    | nil => exact absurd rfl hne
-    | cons x l => exact ⟨⟨x, by simp, hall x (by simp)⟩, fun t ht => Or.inl (hall t ht)⟩
-
-/-- The full statement (`all_op r ↔ r.states ≠ [] ∧ ∀ s ∈ r.states, s = Op`) is FALSE of the code:
-    states `[Op, None]` — one device in OP, one that reported nothing (e.g. dropped out: an
-    unanswered status read keeps its zero payload) — give `all_op() == true`,
-    `is_in_state(Op) == true` and `group_in_single_state() == Some(Op)`. -/
-theorem all_op_counterexample :
-    allOp [8, 0] = true ∧ isInState [8, 0] .op = true ∧ groupInSingleState [8, 0] = some .op ∧
-    ¬ (∀ s ∈ [8, 0], s = 8) := by
+/-- The inputs on which the OR-fold used to go wrong (`[Op, None]`: a device that reported
+    nothing next to one in OP; `[Init, PreOp]` against `Other(3)`) now get the right answers. -/
+theorem former_or_fold_witnesses :
+    allOp [8, 0] = false ∧ isInState [8, 0] .op = false ∧ groupInSingleState [8, 0] = none ∧
+    isInState [1, 2] (.other 3) = false ∧ isInState [3, 3] .bootstrap = true ∧
+    groupInSingleState [] = none := by
   decide
-
-/-- Same root cause, other witness: a multi-bit `Other(n)` is "reached" by devices in different
-    states whose OR is `n`. -/
-theorem is_in_state_merge_counterexample :
-    isInState [1, 2] (.other 3) = true ∧ ¬ (∀ s ∈ [1, 2], s = 3) := by
-  decide
-
-/-- `all_op_iff` for the element-wise version (what a `fix:` would make the code). -/
-theorem all_op_elem_iff (l : List Nat) : allOpElem l = true ↔ l ≠ [] ∧ ∀ s ∈ l, s = 8 := by
-  simp [allOpElem, allInState, SdState.toNat]
-
-/-- `is_in_state` AS CODED: never for BOOTSTRAP; otherwise the OR of the reported states equals
-    the value of the desired state. -/
-theorem is_in_state_as_coded (l : List Nat) (d : SdState) :
-    isInState l d = true ↔ d ≠ .bootstrap ∧ groupState l = d.toNat := by
-  cases d <;> simp [isInState, SdState.toNat]
-
-/-- `is_in_state` for the four requestable states, as long as no SubDevice reports `None`. -/
-theorem is_in_state_iff_partial (l : List Nat) (d : SdState) (h : ∀ s ∈ l, s < 16) (hn : ∀ s ∈ l, s ≠ 0)
-    (hd : d = .init ∨ d = .preOp ∨ d = .safeOp ∨ d = .op) :
-    isInState l d = true ↔ l ≠ [] ∧ ∀ s ∈ l, s = d.toNat := by
-  rw [is_in_state_as_coded, groupState_eq_orAll l h]
-  have hb : d ≠ .bootstrap := by rcases hd with rfl | rfl | rfl | rfl <;> simp
-  have hv : d.toNat = 1 ∨ d.toNat = 2 ∨ d.toNat = 4 ∨ d.toNat = 8 := by
-    rcases hd with rfl | rfl | rfl | rfl <;> simp [SdState.toNat]
-  rw [orAll_eq_bit_nonone d.toNat hv l h hn]
-  simp [hb]
-
-/-- `is_in_state(None)` is exact: every SubDevice reported nothing. -/
-theorem is_in_state_none_iff (l : List Nat) (h : ∀ s ∈ l, s < 16) :
-    isInState l .none = true ↔ ∀ s ∈ l, s = 0 := by
-  rw [is_in_state_as_coded, groupState_eq_orAll l h]
-  simp [SdState.toNat, orAll_eq_zero l h]
-
-/-- `is_in_state` for the element-wise version. -/
-theorem is_in_state_elem_iff (l : List Nat) (d : SdState) :
-    isInStateElem l d = true ↔ d ≠ .bootstrap ∧ l ≠ [] ∧ ∀ s ∈ l, s = d.toNat := by
-  cases d <;> simp [isInStateElem, allInState]
-
-/-- `group_in_single_state` AS CODED: `Some(d)` iff `d` is one of None/Init/PreOp/SafeOp/Op and
-    the OR of the reported states is `d`'s value. -/
-theorem single_state_as_coded (l : List Nat) (d : SdState) (h : ∀ s ∈ l, s < 16) :
-    groupInSingleState l = some d ↔
-      (d = .none ∨ d = .init ∨ d = .preOp ∨ d = .safeOp ∨ d = .op) ∧ groupState l = d.toNat :=
-  singleOf_some (groupState l) (by rw [groupState_eq_orAll l h]; exact orAll_lt l h) d
-
-/-- `group_in_single_state` for the four requestable states, as long as nobody reports `None`. -/
-theorem single_state_iff_partial (l : List Nat) (d : SdState) (h : ∀ s ∈ l, s < 16) (hn : ∀ s ∈ l, s ≠ 0)
-    (hd : d = .init ∨ d = .preOp ∨ d = .safeOp ∨ d = .op) :
-    groupInSingleState l = some d ↔ l ≠ [] ∧ ∀ s ∈ l, s = d.toNat := by
-  rw [single_state_as_coded l d h, groupState_eq_orAll l h]
-  have hv : d.toNat = 1 ∨ d.toNat = 2 ∨ d.toNat = 4 ∨ d.toNat = 8 := by
-    rcases hd with rfl | rfl | rfl | rfl <;> simp [SdState.toNat]
-  rw [orAll_eq_bit_nonone d.toNat hv l h hn]
-  constructor
-  · exact fun x => x.2
-  · intro x
-    exact ⟨by rcases hd with rfl | rfl | rfl | rfl <;> simp, x⟩
-
-/-- `group_in_single_state` for the element-wise version: `Some(d)` iff the list is non-empty,
-    all entries are one value `v`, and `d` is `v` decoded. -/
-theorem single_state_elem_iff (l : List Nat) (d : SdState) :
-    groupInSingleStateElem l = some d ↔ l ≠ [] ∧ ∃ v, (∀ s ∈ l, s = v) ∧ d = SdState.ofNat v := by
-  cases l with
-  | nil => simp [groupInSingleStateElem]
-  | cons x rest =>
-    simp only [groupInSingleStateElem]
-    by_cases hall : rest.all (· == x) = true
-    · rw [if_pos hall]
-      have hall' : ∀ s ∈ rest, s = x := by simpa using hall
-      constructor
-      · intro h
-        exact ⟨by simp, x, by intro s hs; rcases List.mem_cons.1 hs with rfl | hs; rfl; exact hall' s hs,
-          (Option.some.inj h).symm⟩
-      · rintro ⟨_, v, hv, rfl⟩
-        rw [hv x (by simp)]
-    · rw [if_neg hall]
-      constructor
-      · intro h; cases h
-      · rintro ⟨_, v, hv, _⟩
-        exfalso
-        apply hall
-        simp only [List.all_eq_true, beq_iff_eq]
-        intro s hs
-        rw [hv s (by simp [hs]), hv x (by simp)]
 
 /-! ### Generated obligations (T1) -/
 
@@ -413,6 +319,7 @@ example : (waitForState .checked 100 8 [0x1000] [.resp ⟨[4, 0], 1⟩, .deadlin
 example : ((round 90 (List.range 16)).1.map List.length) = [6, 6, 4] := by decide
 
 example : allOp [8, 8, 8] = true ∧ allOp [8, 4] = false ∧ groupInSingleState [4, 4] = some .safeOp ∧
-    groupInSingleState [8, 4] = none ∧ isInState [2, 2] .preOp = true := by decide
+    groupInSingleState [8, 4] = none ∧ isInState [2, 2] .preOp = true ∧ groupInSingleState [5, 5] = some (.other 5) := by
+  decide
 
 end Ec.C10
